@@ -95,3 +95,31 @@ Proof.
   - exists eff, h'. split; [rewrite Heq; destruct cfg; exact H1|]. split; [destruct cfg; exact Hle | exact H3].
 Qed.
 Print Assumptions C05_statements_correct_partial.
+
+(* ------------------------------------------------------------------ the statement shapes ARE the compiler's *)
+(* what the il_write / il_exec methods of the Effect classes Branch, ForLoop, Jump, MemStore, NOP, Empty and of Ternary, MemLoad emit
+   (gen/OpTablesGen.v, regenerated from the Python sources by symbolic execution on every run: tools/vt/tr_optables.py) elaborates to exactly
+   the effect / pure shapes model/Lower.v builds for if / for / JUMP / mem_store / nop / empty statements, ?: and loads:
+   EBranch (cond_of c) t f, ERepeat (cond_of c) body, ESeq (ESetL "jump_flag" true) (ESetL "jump_target" t), EStore a v, ENop, EEmpty,
+   PIte (cond_of c) a b, PLoad w a  (cond_of = cond_wrap (is BooleanOp or CompareOp)) *)
+From RZ.sem Require Import CBody.
+From RZ.gen Require Import OpTablesGen.
+From RZ.proofs Require Import OpTablesProofs.
+Theorem C05_statement_shapes_are_the_compilers :
+  (forall c t f ib0 ic0 ib1 ic1 op tself t0 t1,
+     elab_eff_text [("$0", BPure c); ("$1", BEff t); ("$2", BEff f)] (branch_text op tself t0 t1 ib0 ic0 ib1 ic1) = Some (EBranch (cond_wrap (ib0 || ic0) c) t f)) /\
+  (forall c body ib0 ic0 ib1 ic1 op tself t0 t1,
+     elab_eff_text [("$0", BPure c); ("$1", BEff body)] (forloop_text op tself t0 t1 ib0 ic0 ib1 ic1) = Some (ERepeat (cond_wrap (ib0 || ic0) c) body)) /\
+  (forall t op tself t0 t1 ib0 ic0 ib1 ic1,
+     elab_eff_text [("$0", BPure t)] (jump_text op tself t0 t1 ib0 ic0 ib1 ic1) = Some (ESeq (ESetL "jump_flag" (PBool true)) (ESetL "jump_target" t))) /\
+  (forall a v op tself t0 t1 ib0 ic0 ib1 ic1,
+     elab_eff_text [("$0", BPure a); ("$1", BPure v)] (memstore_text op tself t0 t1 ib0 ic0 ib1 ic1) = Some (EStore a v)) /\
+  (forall op tself t0 t1 ib0 ic0 ib1 ic1,
+     elab_eff_text [] (nop_text op tself t0 t1 ib0 ic0 ib1 ic1) = Some ENop /\ elab_eff_text [] (empty_text op tself t0 t1 ib0 ic0 ib1 ic1) = Some EEmpty) /\
+  (forall c a b ib0 ic0 ib1 ic1 op tself t0 t1,
+     match ternary_text op tself t0 t1 ib0 ic0 ib1 ic1 with Some s => elab (G3 c a b) noparam s | None => None end = Some (PIte (cond_wrap (ib0 || ic0) c) a b)) /\
+  (forall a b tself op t0 t1 ib0 ic0 ib1 ic1, elab_text a b (memload_text op tself t0 t1 ib0 ic0 ib1 ic1) = Some (PLoad (vt_w tself) a)).
+Proof.
+  exact (conj branch_text_ok (conj forloop_text_ok (conj jump_text_ok (conj memstore_text_ok (conj nop_empty_text_ok (conj ternary_text_ok memload_text_ok)))))).
+Qed.
+Print Assumptions C05_statement_shapes_are_the_compilers.
